@@ -42,7 +42,7 @@ func H_C14_FrostTaprootDerive() {
 	}
 	depth := vsym.Param("depth", 2)
 	for d := 0; d < depth; d++ {
-		idx := vsym.Uint32("index")
+		idx := vsym.Uint32([]string{"index0", "index1", "index2", "index3"}[d])
 		vsym.Assume(idx < 1<<31)
 		parent := cur[ids[0]]
 		P, err := group.LiftX(parent.PublicKey)
